@@ -38,33 +38,33 @@ func c08ThroughREST(c *hx.Ctx) {
 			}
 			_, cr, err := NewCDid(r.Split(fmt.Sprint(run, "-", k)), ref.SHA256, []string{hx.Pick(r, ref.KeyTypes)}, 300, false, patches, nil, genOrigin(r), "")
 			if err != nil {
-				c.Violation("C08 client.NewCreateRequest refused valid inputs: "+err.Error(), nil)
+				c.Violation(c.ID+" client.NewCreateRequest refused valid inputs: "+err.Error(), nil)
 				return
 			}
 			c.Eval()
 			rw := httptest.NewRecorder()
 			h.Update(rw, httptest.NewRequest(http.MethodPost, "/operations", bytes.NewReader(cr.Req)))
 			if rw.Code != http.StatusOK {
-				c.Violation(fmt.Sprintf("C08 REST handler refused a valid create: %d %s", rw.Code, rw.Body.String()), map[string]interface{}{"request": string(cr.Req)})
+				c.Violation(fmt.Sprintf(c.ID+" REST handler refused a valid create: %d %s", rw.Code, rw.Body.String()), map[string]interface{}{"request": string(cr.Req)})
 				return
 			}
 			posted = append(posted, append([]byte{}, cr.Req...))
 			suffixes = append(suffixes, suffixOf(cr.Req, ref.SHA256))
 		}
 		if len(w.Added) != len(posted) {
-			c.Violation(fmt.Sprintf("C08 %d creates posted, %d operations handed to the batch writer", len(posted), len(w.Added)), nil)
+			c.Violation(fmt.Sprintf(c.ID+" %d creates posted, %d operations handed to the batch writer", len(posted), len(w.Added)), nil)
 			return
 		}
 		for k, q := range w.Added {
 			if q.UniqueSuffix != suffixes[k] || !bytes.Equal(q.OperationRequest, posted[k]) {
-				c.Violation(fmt.Sprintf("C08 operation %d of %d handed to the batch writer through the REST handler is no longer the request posted for it after later requests were served (suffix %s, hash of the suffix data it now carries: %s)",
+				c.Violation(fmt.Sprintf(c.ID+" operation %d of %d handed to the batch writer through the REST handler is no longer the request posted for it after later requests were served (suffix %s, hash of the suffix data it now carries: %s)",
 					k+1, len(posted), q.UniqueSuffix, suffixOfOrErr(q.OperationRequest)), map[string]interface{}{"posted": string(posted[k]), "kept": string(q.OperationRequest)})
 				return
 			}
 		}
 		for k, o := range unpub.ops {
 			if k < len(posted) && (o.UniqueSuffix != suffixes[k] || !bytes.Equal(o.OperationRequest, posted[k])) {
-				c.Violation(fmt.Sprintf("C08 pending operation %d kept in the unpublished-operation store is no longer the request posted for it (suffix %s)", k+1, o.UniqueSuffix),
+				c.Violation(fmt.Sprintf(c.ID+" pending operation %d kept in the unpublished-operation store is no longer the request posted for it (suffix %s)", k+1, o.UniqueSuffix),
 					map[string]interface{}{"posted": string(posted[k]), "kept": string(o.OperationRequest)})
 				return
 			}
